@@ -1,7 +1,7 @@
 (* wire encoding of C10 cases; exported functions are [x_*] : val -> val
    case        = ( cfg dtok ops )
    cfg         = ( frag rate mem copy path sps pps )
-   op          = ( 0 kind pts dts payload ) | ( 1 seq ) | ( 2 h ) | ( 3 tok ) | ( 4 h ) | ( 5 ) | ( 6 sps pps )
+   op          = ( 0 kind pts dts payload ) | ( 1 seq ) | ( 2 h ) | ( 3 tok ) | ( 4 h ) | ( 5 ) | ( 6 sps pps ) | ( 7 ( ( seq bytes ) ... ) )
    observation = ( sobs ... )      one per op
    sobs        = ( pl live files new res )
    pl          = ( ) | ( ( target mseq ( ( disc ms uri tok ) ... ) ) raw )
@@ -28,6 +28,7 @@ Definition dec_op (v : val) : op :=
   | 3 => OPlGet (as_bytes (nthv 1 v))
   | 4 => OPlRead (as_int (nthv 1 v))
   | 6 => OSetPs (as_bytes (nthv 1 v)) (as_bytes (nthv 2 v))
+  | 7 => ONewGen (map (fun x => (as_int (nthv 0 x), as_bytes (nthv 1 x))) (as_list (nthv 1 v)))
   | _ => OClose
   end.
 
